@@ -1,11 +1,11 @@
 package main
 
 import (
-	"slices"
 	"fmt"
 	"go/ast"
 	"go/token"
 	"go/types"
+	"slices"
 	"strings"
 )
 
